@@ -1032,6 +1032,48 @@ theorem nilness_lattice_lawful :
     Ranked nilValLat (fun a => [0, 1, 1, 2, 3].getD a.1.val 0 + [0, 1, 1, 2, 3].getD a.2.val 0) (3 + 3) :=
   ⟨prodLat_laws nil5Fin_laws nil5Fin_laws, prodLat_ranked nil5Fin_ranked nil5Fin_ranked⟩
 
+
+/-- **dense_forward_nilness.** The solver instance of nilness.go,
+`dense.Forward[dfa.DenseMapLattice[ValueNilness, lattice]]`, with the `latticeMerge` table
+of the current tree: for every finite graph, transfer functions that keep facts about `k`
+values and are monotone up to `DenseMapLattice.Equals`, every entry map and every
+schedule, the solver ends within `n·(6k+1)·(n+1) + n` iterations in the least solution
+(up to `Equals`). -/
+theorem dense_forward_nilness (k : Nat) (G : Dense.Graph) (hG : G.WF)
+    (tr : Nat → List (Fin 5 × Fin 5) → List (Fin 5 × Fin 5))
+    (hmem : ∀ e a, a.length ≤ k → (tr e a).length ≤ k)
+    (hm : Dense.MonoE (dmLat nilValLat) (fun a => a.length ≤ k) tr)
+    (entry : Nat → List (Fin 5 × Fin 5)) (he : ∀ b, (entry b).length ≤ k)
+    (pick : Nat → List Nat → Nat) (fuel : Nat) (hf : G.n * ((3 + 3) * k + 1) * (G.n + 1) + G.n ≤ fuel) :
+    let s := (Dense.run (dmLat nilValLat) G tr pick fuel 0 (Dense.init (dmLat nilValLat) G entry)).1
+    Dense.Terminal s ∧
+    (∀ b, b < G.n → dmEquals nilValLat (s.inF b)
+        (if Dense.inEdges G b = [] then entry b
+         else joinL (dmLat nilValLat) ((Dense.inEdges G b).map s.outF)) = true) ∧
+    (∀ e, e < G.m → dmEquals nilValLat (s.outF e) (tr e (s.inF (G.src e))) = true) ∧
+    (∀ I O, Dense.PreSolE (dmLat nilValLat) (fun a => a.length ≤ k) G tr entry I O →
+        (∀ b, b < G.n → (dmLat nilValLat).leq (s.inF b) (I b)) ∧
+        (∀ e, e < G.m → (dmLat nilValLat).leq (s.outF e) (O e))) :=
+  dense_forward_densemap nilValLat nilness_lattice_lawful.1 _ (3 + 3) nilness_lattice_lawful.2 k G hG tr
+    hmem hm entry he pick fuel hf
+
+/-- non-vacuity: a block that makes value 0 `{NeverNil, NeverNil}` on the edge into a loop. -/
+example :
+    let tr : Nat → List (Fin 5 × Fin 5) → List (Fin 5 × Fin 5) := fun e a => if e = 0 then [(1, 1)] else a
+    let s := (Dense.run (dmLat nilValLat) exG tr (fun _ _ => 0) 100 0
+      (Dense.init (dmLat nilValLat) exG (fun _ => []))).1
+    Dense.Terminal s ∧ s.inF 1 = [(1, 1)] ∧ s.inF 2 = [] := by
+  intro tr s
+  refine ⟨?_, by decide, by decide⟩
+  refine (dense_forward_nilness 1 exG exG_wf tr ?_ ?_ (fun _ => []) (by intro b; simp) _ 100 (by decide)).1
+  · intro e a ha; show (if e = 0 then [(1, 1)] else a).length ≤ 1; split <;> simp [ha]
+  · intro e a b _ _ h
+    show (dmLat nilValLat).leq (if e = 0 then [(1, 1)] else a) (if e = 0 then [(1, 1)] else b)
+    split
+    · show dmEquals nilValLat (dmMerge nilValLat [(1, 1)] [(1, 1)]) [(1, 1)] = true
+      decide
+    · exact h
+
 end lattices
 
 end Verif.C13
